@@ -323,9 +323,18 @@ func (b *Builder) Value(t reflect.Type, depth int) reflect.Value {
 		}
 		return reflect.ValueOf(ht.MultipartFile{Name: name, File: bytes.NewReader(data), Size: int64(len(data)), Header: b.PartHeader})
 	case tBytes:
-		data := make([]byte, r.Intn(40))
+		n := r.Intn(40)
+		if n == 0 && b.NonEmpty {
+			n = 1
+		}
+		data := make([]byte, n)
 		for i := range data {
-			data[i] = byte(r.Intn(256))
+			if b.Hostile {
+				data[i] = byte(r.Intn(256))
+			} else {
+				// core domain: []byte is also what an array of uint8 becomes; letters and digits travel in every location
+				data[i] = asciiAlnumBytes[r.Intn(len(asciiAlnumBytes))]
+			}
 		}
 		return reflect.ValueOf(data)
 	}
@@ -604,3 +613,5 @@ func sameShape(t, std reflect.Type) bool {
 	}
 	return true
 }
+
+const asciiAlnumBytes = "abcdefghijklmnopqrstuvwxyzABCDEFGHIJKLMNOPQRSTUVWXYZ0123456789"
